@@ -38,6 +38,20 @@ def _fields_read(t, obj) -> set:
 @obligation("C15-D1", "eq/hash agreement: Reference.__eq__ compares exactly {prefix, identifier} (plus isinstance(other, Reference)), __hash__ hashes exactly the same fields; no subclass overrides __eq__/__hash__/__lt__", floor=3)
 def d1(cx: Cx, ob: Ob) -> None:
     base = cx.model.cls(REF, ob.id)
+    for ci_ in ref_classes(cx, ob):
+        ne = ci_.methods.get("__ne__")
+        if ne is not None:
+            ns = cx.summary(ne, ob.id)
+            me_, ot_ = ("param", ne.params[0].name), ("param", ne.params[1].name)
+            okne = all(t in (("not", ("cmp", "==", me_, ot_)), ("not", ("call", ("attr", me_, "__eq__"), (ot_,), ())), ("cmp", "!=", ("attr", me_, "pair"), ("attr", ot_, "pair"))) for t, _ in ns.returns())
+            if not okne:
+                ob.violate(
+                    ne.qualname,
+                    ne.where,
+                    f"{ci_.name} defines its own __ne__ that is not the negation of __eq__: `!=` and `==` can both be false (or both true) for the same pair, so equality no longer depends on (prefix, identifier) alone",
+                    witness="Reference('a','1') != Reference('a','2') is False while == is False too",
+                    detail="ne-not-negation",
+                )
     eq = base.methods.get("__eq__")
     hs = base.methods.get("__hash__")
     if eq is None or hs is None:
@@ -457,6 +471,16 @@ def d7(cx: Cx, ob: Ob) -> None:
     for c, ev, ctx in rs.calls("reader"):
         rd = dict(c[3]).get("delimiter")
         rcall = c
+    if rcall is not None and rcall[2]:
+        for x in subterms(rcall[2][0]):
+            if op(x) == "call" and op(x[1]) == "attr" and x[1][2] in ("splitlines", "split"):
+                ob.violate(
+                    r.qualname,
+                    r.where,
+                    f"read_triples feeds csv.reader with `{show(rcall[2][0])[:50]}`: str.{x[1][2]} cuts lines at characters the csv writer does not quote (U+2028, U+2029, U+0085, \\x0b, \\x0c, \\x1c-\\x1e) and drops the line ends inside quoted cells, so written triples do not parse back",
+                    witness="an identifier containing U+2028: the row is cut in two and unpacking fails",
+                    detail="reader-source",
+                )
     if wcall is not None and rcall is not None:
         from ..rules import csv_agreement
 
